@@ -43,6 +43,15 @@ pub struct AssignedVector<F: CircuitField, T: Vectorizable, const M: usize, cons
     pub(crate) len: AssignedNative<F>,
 }
 
+/// Verification hooks (feature `verif-hooks`, default off, add-only).
+#[cfg(feature = "verif-hooks")]
+impl<F: CircuitField, T: Vectorizable, const M: usize, const A: usize> AssignedVector<F, T, M, A> {
+    /// Read-only view of the padded buffer and of the cell holding the effective length.
+    pub fn verif_parts(&self) -> (&[T; M], &AssignedNative<F>) {
+        (&self.buffer, &self.len)
+    }
+}
+
 /// Returns the range where the data should be placed in the buffer.
 pub fn get_lims<const M: usize, const A: usize>(len: usize) -> Range<usize> {
     let final_pad_len = (A - (len % A)) % A;
